@@ -4,6 +4,7 @@ import GwModel.Select
 import GwModel.Route
 import GwModel.InjectFile
 import GwModel.Http
+import GwModel.HttpReq
 import GwModel.CacheRun
 import GwModel.Gen.Facts
 import GwModel.Insert
@@ -222,6 +223,25 @@ def runTrace (j : Json) : Json :=
           else go s' (i + 1) rest
   go (ExecM.init ts) 0 (getArr j "acts")
 
+/-- {"method","ctype","get":{"query"?,"operationName"?,"variables"?:{"valid","json"},"extensions"?:{…}},"body":{"valid","json"}} -/
+def runHttpReqParse (j : Json) : Json :=
+  let optParam (o : Json) (k : String) : Option (Option Http.JV) :=
+    match getObj? o k with
+    | none => none
+    | some p => some (if getBool p "valid" then some (((getObj? p "json").map decJV).getD Http.JV.null) else none)
+  let optStr (o : Json) (k : String) : Option String := match getObj? o k with | some (.str s) => some s | _ => none
+  let g := (getObj? j "get").getD (Json.mkObj [])
+  let bodyJ := (getObj? j "body").getD (Json.mkObj [])
+  let req : Http.Req :=
+    { method := match getStr j "method" with | "GET" => .get | "POST" => .post | _ => .other
+      ctype := if getStr j "ctype" == "json" then .json else .unknown
+      get := { query := optStr g "query", variables := optParam g "variables", operationName := optStr g "operationName",
+               extensions := optParam g "extensions" }
+      body := if getBool bodyJ "valid" then some (((getObj? bodyJ "json").map decJV).getD Http.JV.null) else none }
+  match Http.parseReq req with
+  | .error status => Json.mkObj [("err", .num (JsonNumber.fromNat status))]
+  | .ok (ops, batch) => Json.mkObj [("ops", .arr (ops.map encOp).toArray), ("batch", .bool batch)]
+
 def handle (j : Json) : Json :=
   match getStr j "op" with
   | "mono" => Json.mkObj [("data", encVal (Mono.mono (decCase j)))]
@@ -256,6 +276,7 @@ def handle (j : Json) : Json :=
     match InjF.injectAll ops (getBool j "batch") files with
     | .ok ops' => Json.mkObj [("ok", .arr (ops'.map encJ).toArray)]
     | .error _ => Json.mkObj [("err", .str "rejected")]
+  | "http-req-parse" => runHttpReqParse j
   | "http-parse" =>
     let body := if getBool j "valid" then (getObj? j "body").map decJV else none
     let body := if getBool j "valid" && body.isNone then some Http.JV.null else body
